@@ -72,7 +72,7 @@ CLAIMS['C08'] = dict(
     text='Mechanism conformance of IT blocks: advance table, predicates, advance placed exactly once after the opcode '
          'under the in_it_block() value sampled before execution, the IT instruction\'s write, flag suppression wiring of '
          'all 16-bit data-processing encodings, IT saved-then-cleared on every exception entry and restored only on '
-         'exception return. The trace-level statement (next 1-4 instructions conditional) is implied, not decided.',
+         'exception return, and the restored ITSTATE not advanced by the returning instruction (C08-R). The trace-level statement (next 1-4 instructions conditional) is implied, not decided.',
     note='Trusted: CPython ast; sa/refmodel.py; spec/enc_t16.json.')
 
 CLAIMS['C09'] = dict(
@@ -287,7 +287,13 @@ m = {
                                    'table domain / bit-vector abstract interpreter, structured effect walker, '
                                    'interval analysis; no execution of repo code, no solver'}],
     'checks': checks,
-    'notes': 'Static analysis only; see DESIGN.md. Exit 0 ok / 1 VIOLATION / 2 ANALYSIS-ERROR (fail closed).',
+    'notes': 'Static analysis only; see DESIGN.md. Exit 0 ok / 1 VIOLATION / 2 ANALYSIS-ERROR (fail closed). A violation that was '
+             'established before a later rule met a construct it cannot analyse is still reported (exit 1, evidence marked INCOMPLETE). '
+             'Every run is bounded (VERIF_MAX_SECONDS, default 900 quick / 14400 thorough; VERIF_MAX_MEM_GB, default 6 / 24): a tree on '
+             'which a symbolic evaluation explodes ends as ANALYSIS-ERROR. C05/C13/C14/C15/C16/C17/C19/C20 additionally share the memo '
+             'detector (<ID>-MEMO, sa/memo.py): no function of their scope returns a result remembered from an earlier call under an '
+             'incomplete key. Regression corpora: seeded/ (240 breaking changes, all caught) and benign/ (240 behaviour-preserving '
+             'refactorings, all silent); tools/regress.sh re-runs them. VERIF_EVIDENCE_DIR redirects the evidence of such sweeps.',
     'not_applicable': na,
 }
 json.dump(m, open(os.path.join(HERE, 'MANIFEST.json'), 'w'), indent=1)
